@@ -604,6 +604,13 @@ def m_map_insert(M, a, c, fr):
     return opt_some(old) if was else opt_none()
 
 
+def m_into_via_from(M, a, c, fr):
+    m = re.fullmatch(r'<(.+) as Into<(.+)>>::into', c)
+    src, dst = m.group(1), m.group(2)
+    if src == dst: return a[0]
+    return M.call('<%s as From<%s>>::from' % (dst, src), a, fr)
+
+
 def m_write_fmt(M, a, c, fr):
     M.aux.setdefault('fmt_log', []).append(a[1])
     return res_ok([])
@@ -667,6 +674,7 @@ MODELS = [
     (r'<&str as Into<String>>::into', m_str_to_owned), (r'<String as From<&str>>::from', m_str_to_owned),
     (r'(alloc|std)::string::<impl ToString for str>::to_string|<str as ToString>::to_string|<str as ToOwned>::to_owned', m_str_to_owned),
     # misc
+    (r'<.+ as Into<.+>>::into', m_into_via_from),
     (r'<.* as Clone>::clone', m_clone),
     (r'(std|core)::mem::replace::<.*>', m_replace), (r'(std|core)::mem::take::<.*>', m_take),
     (r'<PhantomData<.*> as Default>::default', m_phantom_default),
